@@ -1,6 +1,8 @@
 """Runs one dispatch case against the real dispatcher and collects what the oracles need."""
 
+import contextlib
 import json
+import logging
 from typing import Any, Dict, List, Optional
 
 from pbt import docs, methods as hm, refserver as ref, stdreg
@@ -65,7 +67,46 @@ def make_context(kind: str = 'object') -> Any:
     return object()
 
 
+class _Sink(logging.Handler):
+    """formats every record (so lazily formatted log arguments are really rendered) and throws the text away"""
+
+    def emit(self, record: logging.LogRecord) -> None:
+        try:
+            self.format(record)
+        except Exception:
+            pass
+
+
+@contextlib.contextmanager
+def debug_logging() -> Any:
+    """the application runs with the library's loggers at DEBUG (the harness otherwise disables logging altogether)"""
+    manager_disable = logging.root.manager.disable
+    lg = logging.getLogger('pjrpc')
+    saved = (lg.level, lg.propagate, logging.raiseExceptions)
+    sink = _Sink()
+    logging.disable(logging.NOTSET)
+    lg.addHandler(sink)
+    lg.setLevel(logging.DEBUG)
+    lg.propagate = False
+    logging.raiseExceptions = False
+    try:
+        yield
+    finally:
+        lg.removeHandler(sink)
+        lg.setLevel(saved[0])
+        lg.propagate = saved[1]
+        logging.raiseExceptions = saved[2]
+        logging.disable(manager_disable)
+
+
 def observe(spec: Dict[str, Any], dispatcher: Any = None, text: Optional[str] = None, **dispatcher_kwargs: Any) -> Observation:
+    if spec.get('logging') == 'debug':
+        with debug_logging():
+            return _observe({k: v for k, v in spec.items() if k != 'logging'}, dispatcher, text, **dispatcher_kwargs)
+    return _observe(spec, dispatcher, text, **dispatcher_kwargs)
+
+
+def _observe(spec: Dict[str, Any], dispatcher: Any = None, text: Optional[str] = None, **dispatcher_kwargs: Any) -> Observation:
     kind = spec['dispatcher']
     sentinel = make_context(spec.get('ctx_value', 'object'))
     hm.RT.reset(sentinel, behaviours_of(spec), error_builder=build_error, yield_once=bool(spec.get('yield_once')))
